@@ -1,16 +1,26 @@
 """C06 - inheritance chains dispatch self/next/parent correctly; blocks render once.
 
-corr  : the Lean model of the runtime (`_populate_self_namespace`/`_inherit_from` heap construction,
-        `TemplateNamespace.__getattr__` with its setattr memo, `_NSAttr`, `visitBlockTag`'s guard, Python
-        argument binding of body(), the `_Identifiers` block checks) against the real mako:
-          corr.render - whole chains rendered through a real TemplateLookup, output tag sequence / exception kind
-          corr.build  - the object graph left by the inherit phase (inherits links, self/local/next/parent per context)
-          corr.attrs  - `getattr(ns_j, name)` / `ns_j.attr.name` sequences on the real namespace objects
-          corr.check  - compile outcome of random def/block/call trees
-oracle: expected tag sequence computed from the generator's ground truth by the rules of the property text
-        (most-derived definition, base-most position, adjacent templates for next/parent, Python signature
-        binding through inspect.Signature) - no Lean involved; CompileException expectations for duplicate
-        and misplaced blocks.
+corr  : the Lean model of the runtime (`_populate_self_namespace`/`_inherit_from` heap construction, templates
+        compiled when first looked up, `TemplateNamespace.__getattr__` with its setattr memo, `_NSAttr` walking the
+        chain at read time, `visitBlockTag`'s guard and its `__M_writer(<call> or '')` for buffered blocks, calls
+        with content run in place, Python argument binding of bodies, defs and blocks, the `_Identifiers` block
+        checks incl. `_reject_named_blocks`) against the real mako:
+          corr.nsattrs - the regenerated table of Namespace attribute names against dir() of a live namespace
+          corr.render  - whole chains rendered through a real TemplateLookup, output tag sequence / exception kind
+          corr.build   - the object graph left by the inherit phase (inherits links, self/local/next/parent per context)
+          corr.attrs   - `getattr(ns_j, name)` / `ns_j.attr.name` sequences on the real namespace objects
+                         (memo threaded through, and memo-free)
+          corr.check   - compile outcome (and kind of the first CompileException) of random def/block/call trees
+oracle: oracle.render - expected tag sequence computed from the generator's ground truth by the rules of the
+        property text (most-derived definition, base-most position, adjacent templates for next/parent, a block's
+        content once at its position whatever its buffered flag, Python signature binding through
+        inspect.Signature) - no Lean involved; oracle.check - CompileException expectations for duplicate and
+        misplaced blocks; oracle.witnesses - a fixed corpus replayed on every run: the witnesses of the recorded
+        findings and the regression cases of the repaired ones (F-C06-3, F-C06-4) and of two rule points
+        (`local` in an intermediate template, None/falsy module attributes).
+A violating case is shrunk and attributed to a recorded finding only by a causal test (`classify`): removing exactly
+that feature must make the implementation follow the rules again; anything else is reported under the sites
+`inheritance-dispatch` / `block-checks`, which no recorded finding matches.
 """
 from __future__ import annotations
 
@@ -49,8 +59,8 @@ ASSUMPTIONS = [
     "a <%call> is always a call to a def consisting of ${caller.body()} (content written exactly once, in place); other callees are C05's",
 ]
 TRUSTED_EXTRA = [
-    "C06: the template writer/line tracker and output tokeniser of harness/props/C06.py (block line numbers are cross-checked against the real lexer)",
-    "C06: Python's argument binding is modelled (Inherit.bind) and compared with the interpreter on every body() call; the oracle uses inspect.Signature",
+    "C06: the template writer/line tracker and output tokeniser of harness/props/C06.py (block line numbers come from the harness' own line tracker; a wrong line shows as a disagreement in the anonymous-block cases of corr.render / corr.check)",
+    "C06: Python's argument binding is modelled (Inherit.bind) and compared with the interpreter on every member call with arguments (bodies, defs, blocks); the oracle uses inspect.Signature",
 ]
 REGEN = ["NsAttrs"]
 
@@ -1198,6 +1208,8 @@ def classify(case, impl, differs):
         return "anonymous-blocks-on-one-line"
     us = unshadow(case)
     if us != case and not differs(us):
+        # F-C06-3 is repaired in /repo (14dadc4) and no longer listed in known_findings.json: this site is kept as a
+        # regression detector - should the defect come back it is reported under this name as an unknown violation
         return "named-block-in-replaced-def"
     return "inheritance-dispatch"
 
@@ -1437,7 +1449,7 @@ def report_check_violation(ctx, t):
     if sp != small and not differs(sp):
         site = "anonymous-blocks-on-one-line"
     elif us != small and not differs(us):
-        site = "named-block-in-replaced-def"
+        site = "named-block-in-replaced-def"       # regression detector for the repaired F-C06-3 (see classify)
     else:
         site = "block-checks"
     nodes = small["levels"][0]["nodes"]
